@@ -56,7 +56,7 @@ func (g *Full) expr(typ string, depth int) gen.Expr {
 		case 0:
 			return gen.Acct("a")
 		case 1:
-			return gen.Acct("b:c-d_1")
+			return gen.Acct("world:c-d_1") // an ordinary account: only the exact name `world` is special
 		case 2:
 			return g.v("acc")
 		default:
@@ -112,7 +112,7 @@ func (g *Full) expr(typ string, depth int) gen.Expr {
 		case 1:
 			return gen.Port("50%")
 		case 2:
-			return gen.Port("12.5%")
+			return gen.Port("12.050%") // fractional part with a leading and a trailing zero
 		case 3:
 			return gen.Port("1 / 3")
 		default:
@@ -123,7 +123,7 @@ func (g *Full) expr(typ string, depth int) gen.Expr {
 		case 0:
 			return gen.Str("k")
 		case 1:
-			return gen.Str("héllo wörld €")
+			return gen.Str("héllo // wörld /* €") // comment openers inside a string are text
 		case 2:
 			return gen.Str("a\\\"b")
 		case 3:
@@ -166,7 +166,7 @@ func (g *Full) atom(typ string) gen.Expr {
 }
 
 var fullSrcVecs = [][]string{
-	{"1/2", "1/2"}, {"1/3", "remaining"}, {"50%", "50%"}, {"$por", "remaining"}, {"1/4", "1/4", "remaining"}, {"$por", "$pos"}, {"remaining"},
+	{"1/2", "1/2"}, {"1/3", "remaining"}, {"50%", "50%"}, {"$por", "remaining"}, {"1/4", "1/4", "remaining"}, {"$por", "$pos"}, {"remaining"}, {"1/2", "50%", "remaining"},
 }
 
 func (g *Full) allot(s string) gen.Allot {
